@@ -271,7 +271,9 @@ func c04Run(c *fw.Ctx) error {
 	nEnum := len(maps)
 	if !c.Thorough() {
 		// a handful of deeper shapes so that the second nesting level is exercised on every change
-		for _, h := range []string{`{"a": {"b": 1, "c": [1]}}`, `{"a": {"b": {"c": 1}}}`, `{"a": [1, {"b": 1}], "b": null}`, `{"a": {"b": null}, "c": "s"}`, `{"a": {"c": 1}, "b": [1, "s"]}`, `{"b": {"a": {}}, "a": {"b": []}}`} {
+		for _, h := range []string{`{"a": {"b": 1, "c": [1]}}`, `{"a": {"b": {"c": 1}}}`, `{"a": [1, {"b": 1}], "b": null}`, `{"a": {"b": null}, "c": "s"}`, `{"a": {"c": 1}, "b": [1, "s"]}`, `{"b": {"a": {}}, "a": {"b": []}}`,
+			// a key that is a proper prefix of a later key (paths are compared as paths, not as text)
+			`{"a": {"b": 1}, "ab": 1}`, `{"ab": "s"}`, `{"a": [1], "ab": [1, 1]}`, `{"ab": {"a": 1}, "b": null}`} {
 			maps = append(maps, fromJSONText(h))
 		}
 	}
